@@ -195,3 +195,34 @@ func init() {
 		Assumptions: []string{"conditions and fine-grained authorizers are not generated yet (nil condition, nil authorizer)"},
 	})
 }
+
+func init() {
+	fileCfg := "clients=2,wdel=3,wdm=1,wsnap=4,wfull=1,wbulk=2,noreopen,settle_s=12,filecheck"
+	reg(&checkSpec{
+		ID: "C06", Harness: "eng", Inst: storagePkgs, Level: "exploration", Classes: []string{"C06:"},
+		Cfgs:      []cfgSpec{{Name: "keycursor-over-engine-files", Cfg: fileCfg + ",nocompactcheck,notombcheck", Gating: true, Share: 1}},
+		QuickSecs: 45, ThoroughSecs: 600, MaxRunsPerProc: 150,
+		Rule:      "one case = the set of TSM files and tombstones a real engine produced under one generated write/overwrite/delete/snapshot/compaction program and seeded schedule, read through KeyCursor at every timestamp +-1 of every key, both directions, scalar and array form; non-trivial = at least 4 operations and one context switch; distinct = distinct hash of (operations, schedule)",
+		Probes:    []string{"filecheck_multi_file", "filecheck_tombstones", "keycursor_reads"},
+		Real:      append([]string{"tsm1.FileStore.KeyCursor, Read*Block / Read*ArrayBlock over copies of the engine's files"}, engReal...), Stub: engStub,
+		Assumptions: []string{"file layouts are those the engine produces under generated schedules; hand-made arbitrary layouts are not generated", "expected content = newest-wins merge computed from TSMReader.ReadAll per file"},
+	})
+	reg(&checkSpec{
+		ID: "C04", Harness: "eng", Inst: storagePkgs, Level: "exploration", Classes: []string{"C04:"},
+		Cfgs:      []cfgSpec{{Name: "compactor-over-engine-files", Cfg: fileCfg + ",nokeycursor,notombcheck", Gating: true, Share: 1}},
+		QuickSecs: 45, ThoroughSecs: 600, MaxRunsPerProc: 150,
+		Rule:      "one case = the set of TSM files and tombstones a real engine produced under one generated program and schedule, compacted by the real Compactor in full and fast mode with points-per-block 1000, a tape-chosen small value and 10000; outputs compared with the newest-wins merge of the inputs; non-trivial = at least 4 operations and one context switch; distinct = distinct hash of (operations, schedule)",
+		Probes:    []string{"filecheck_multi_file", "filecheck_tombstones", "compactions_checked"},
+		Real:      append([]string{"tsm1.Compactor.CompactFull / CompactFast, TSM writer and reader"}, engReal...), Stub: engStub,
+		Assumptions: []string{"file layouts are those the engine produces under generated schedules (the engine's own snapshot writes and level/full compactions are additionally judged by the C01 read oracle)", "expected content computed from TSMReader.ReadAll per input file"},
+	})
+	reg(&checkSpec{
+		ID: "C08", Harness: "eng", Inst: storagePkgs, Level: "fault_enumeration", Classes: []string{"C08:"},
+		Cfgs:      []cfgSpec{{Name: "readback-and-tombstone-commit", Cfg: fileCfg + ",nokeycursor", Gating: true, Share: 1}},
+		QuickSecs: 45, ThoroughSecs: 600, MaxRunsPerProc: 150,
+		Rule:      "one case = the TSM files of one simulated engine run (and the outputs of compacting them): every index lookup checked against the file's content; plus one tombstone commit on one of the files with a crash image at every disk event of the commit (torn prefixes of each write); non-trivial = at least 4 operations and one context switch; distinct = distinct hash of (operations, schedule)",
+		Probes:    []string{"readback_files", "tombstone_commits"},
+		Real:      append([]string{"tsm1.TSMReader index, Tombstoner (prepare, sync, rename, syncdir)"}, engReal...), Stub: engStub,
+		Assumptions: []string{"process-crash model with torn last write", "keys are the engine's series keys (escaped spaces); max-length keys are not generated"},
+	})
+}
